@@ -2407,6 +2407,9 @@ class TupleParser:
           cimtype (str): CIM data type name (e.g. 'datetime') except
             'reference', or None (in which case a numeric value is assumed).
         """
+        if data is None:
+            return None
+
         if cimtype == 'string':
             return data
 
